@@ -823,10 +823,12 @@ class LTLayoutContainer(LTContainer[LTComponent]):
         distances to other objects & groups are added to the process queue.
 
         For performance reason, pair-wise distances and object pair info are
-        maintained in a heap of (idx, dist, id(obj1), id(obj2), obj1, obj2)
+        maintained in a heap of (idx, dist, uid(obj1), uid(obj2), obj1, obj2)
         tuples. It ensures quick access to the smallest element. Note that
         since comparison operators, e.g., __lt__, are disabled for
-        LTComponent, id(obj) has to appear before obj in element tuples.
+        LTComponent, a serial number of obj (its creation order, which - unlike
+        id(obj), a memory address - is the same in every run) has to appear
+        before obj in element tuples.
 
         :param laparams: LAParams object.
         :param boxes: All textbox objects to be grouped.
@@ -866,12 +868,18 @@ class LTLayoutContainer(LTContainer[LTComponent]):
             objs = set(plane.find((x0, y0, x1, y1)))
             return objs.difference((obj1, obj2))
 
+        # serial numbers: equal distances are ordered by creation order
+        uid: Dict[int, int] = {}
+        for box in boxes:
+            uid[id(box)] = len(uid)
         dists: List[Tuple[bool, float, int, int, ElementT, ElementT]] = []
         for i in range(len(boxes)):
             box1 = boxes[i]
             for j in range(i + 1, len(boxes)):
                 box2 = boxes[j]
-                dists.append((False, dist(box1, box2), id(box1), id(box2), box1, box2))
+                dists.append(
+                    (False, dist(box1, box2), uid[id(box1)], uid[id(box2)], box1, box2)
+                )
         heapq.heapify(dists)
 
         plane.extend(boxes)
@@ -893,11 +901,19 @@ class LTLayoutContainer(LTContainer[LTComponent]):
                 plane.remove(obj1)
                 plane.remove(obj2)
                 done.update([id1, id2])
+                uid[id(group)] = len(uid)
 
                 for other in plane:
                     heapq.heappush(
                         dists,
-                        (False, dist(group, other), id(group), id(other), group, other),
+                        (
+                            False,
+                            dist(group, other),
+                            uid[id(group)],
+                            uid[id(other)],
+                            group,
+                            other,
+                        ),
                     )
                 plane.add(group)
         # By now only groups are in the plane
